@@ -361,10 +361,12 @@ def canaries(chk, prog):
     def wrong_den(tree):
         for n in ast.walk(tree):
             if isinstance(n, ast.FunctionDef) and n.name == "polar_normal_gravity":
-                for r in ast.walk(n):
+                hit = False
+                for r in ast.walk(n):          # every arm (general and sphere), wherever it sits
                     if isinstance(r, ast.Return) and isinstance(r.value, ast.BinOp) and isinstance(r.value.op, ast.Div):
                         r.value.right = ast.parse("self.a*self.b").body[0].value
-                        return True
+                        hit = True
+                return hit
         return False
     def cached_override(tree):
         for n in ast.walk(tree):
